@@ -99,6 +99,17 @@ def check(res):
                     res.violation(k, "%s(%s): type() is %s, the node was given %s at construction" % (r["entry"]["key"], ", ".join(r["args"]), d.get("type"), want),
                                   {"factory": r["entry"]["key"], "indices": r["ix"], "arguments": r["args"], "observed": d.get("type"), "given": want,
                                    "rerun": "echo '%s' | build/<hash>/asan/fsweep_driver" % lines[i]})
+    # ---- 1b. the same calls again, every result re-read at the end: a type given at construction stays what it was given
+    changed, crashed, err = fsweep.reobserve(calls)
+    for kind, fkey, fargs, before, after in changed:
+        b, a = fsweep.parse_dump(before), fsweep.parse_dump(after)
+        if b.get("type") != a.get("type"):
+            k = "type-changed-later:" + fkey
+            if k not in keys and len(keys) < 12:
+                keys.add(k)
+                res.violation(k, "the node built by %s(%s) reported type %s when it was built and reports %s after later factory calls" % (fkey, fargs, b.get("type"), a.get("type")),
+                              {"factory": fkey, "arguments": fargs, "type_at_construction": b.get("type"), "type_later": a.get("type"),
+                               "rerun": "the sweep's call list piped to build/<hash>/asan/fsweep_driver --history, followed by CHECK all"})
     # ---- 2. the zoo: one or more nodes of every category, in built-up states (loops with bodies, handlers, declarations)
     zexe = build_driver("zoo_dump_driver", "asan", parts=8)
     zp = run([zexe], env=SAN_ENV, timeout=600)
